@@ -50,6 +50,13 @@ CLAIMED.update({
             "Candidate multisets come from the lattice dump hook H2; token sequences are not compared against the extended system lexicon (ties).",
             "DESIGN.md section 6 (C08)"),
 })
+CLAIMED.update({
+    "C10": ("exploration",
+            "storage-fault injection into the definition-file streams (seeded single/multi-edit corruptions + short reads/EINTR/hard read errors), total-function and safe-use oracles, reference char.def interpreter",
+            "Seeded search over corrupted worlds: 0-3 storage faults (generic byte/line/field edits, boundary numbers, the documented structural hazards of each format) on lex.csv, matrix.def, char.def, unk.def, bigram.right/left/cost, user CSV and mapping lists, delivered through readers with short reads, EINTR and hard errors. Every builder call must return Ok or Err (never panic, never swallow a fired I/O error); every accepted dictionary must tokenize ~60 probe sentences under every option set without panic with ids inside the connector, and must assign character categories exactly like a strict reference interpreter of the same file. One recorded known finding (KF-C10-1) is matched by its precise predicate only. Sampled, not exhaustive.",
+            "The reference interpreter covers char.def files inside a strict grammar (others are counted as unchecked); matrix headers implying > 2^22 cells are not generated; allocation failure is not injected.",
+            "DESIGN.md section 6 (C10)"),
+})
 PENDING = {
 }
 
